@@ -255,6 +255,8 @@ class Acl(AceGroup):
     def platform(self, platform: str) -> None:
         platform = h.init_platform(platform=platform)
         if platform == "nxos":
+            if self._type == "standard":
+                raise ValueError(f"invalid type={self._type!r}, expected='extended'")
             self.ungroup_ports()
         self._platform = platform
         for item in self._items:
